@@ -467,7 +467,7 @@ class Simulation:
         self._summary = self._build_summary()
         return self._summary
 
-    def _execute_until(self, end_time_ns: int) -> None:
+    def _execute_until(self, end_time_ns: int, *, stop_at_bound: bool = False) -> None:
         """Run the pop-invoke-push loop until time exceeds end_time_ns.
 
         This is the extracted inner loop shared by ``_run_loop_fast`` (normal
@@ -478,10 +478,17 @@ class Simulation:
         When ``_event_router`` is set, produced events are passed through the
         router which separates local events (returned to push) from
         cross-partition events (appended to an outbox as a side-effect).
+
+        With ``stop_at_bound`` the loop never delivers an event scheduled later
+        than ``end_time_ns``: it stops as soon as the next event lies beyond the
+        bound.  ``_run_window`` needs this, because a partition whose clock has
+        moved past the barrier would discard, as time travel, the cross-partition
+        events that the barrier exchange injects for earlier instants.
         """
         heap = self._event_heap
         clock = self._clock
         heap_pop = heap.pop
+        heap_peek = heap.peek
         heap_push = heap.push
         heap_has_events = heap.has_events
         clock_update = clock.update
@@ -491,6 +498,9 @@ class Simulation:
         router = self._event_router
 
         while heap_has_events() and current_time.nanoseconds <= end_time_ns:
+            if stop_at_bound and heap_peek().time.nanoseconds > end_time_ns:
+                break
+
             event = heap_pop()
 
             if event._cancelled:
@@ -559,7 +569,7 @@ class Simulation:
 
         with _active_sim_context(self._event_heap, self._clock):
             with _active_debugger_context(None):
-                self._execute_until(window_end.nanoseconds)
+                self._execute_until(window_end.nanoseconds, stop_at_bound=True)
 
     def _build_summary(self) -> SimulationSummary:
         """Build a SimulationSummary from current state."""
